@@ -371,7 +371,7 @@ Lemma target_call_symbols cap st wa sc start path :
   exists k,
     target_call cap st (mkReq 85 path (sym_attr_data wa))
     = (st, Some (mkRep true (if Nat.ltb k (length gs) then Consts.INSUFFICIENT_PACKETS else Consts.SUCCESS)
-                       (flat_map (sym_entry p wa) (firstn k gs))))
+                       (flat_map (sym_entry p wa) (firstn k gs)) false))
     /\ (k <= length gs)%nat /\ (gs <> [] -> (1 <= k)%nat).
 Proof.
   intros Hres p gs Hfit.
@@ -387,7 +387,7 @@ Lemma target_call_attrs cap st t path :
   34 <= cap -> resolve_path (ls_proj st) false path = TgTemplate t ->
   0 <= template_defsize t < 4294967296 -> 0 <= t_size t < 4294967296 ->
   0 <= template_member_count t < 65536 -> 0 <= t_handle t < 65536 ->
-  exists d, target_call cap st (mkReq 3 path template_attrs_data) = (st, Some (mkRep true 0 d))
+  exists d, target_call cap st (mkReq 3 path template_attrs_data) = (st, Some (mkRep true 0 d false))
             /\ parse_structure_makeup d = Ok (template_attrs_of t).
 Proof.
   intros Hcap Hres H1 H2 H3 H4.
@@ -406,7 +406,7 @@ Lemma target_call_read cap st t path off cnt :
   exists k v,
     target_call cap st (mkReq 76 path (le_enc 4 off ++ le_enc 2 cnt))
     = (st, Some (mkRep v (if k <? want then Consts.INSUFFICIENT_PACKETS else Consts.SUCCESS)
-                       (firstn (Z.to_nat k) (skipn (Z.to_nat off) blob))))
+                       (firstn (Z.to_nat k) (skipn (Z.to_nat off) blob)) false))
     /\ 0 <= k <= want /\ (0 < want -> 1 <= k).
 Proof.
   intros Hcap Hres Hoff Hcnt blob Hle want.
